@@ -222,6 +222,12 @@ pub use self::writer::{Writer, WriterBuilder};
 
 pub type Result<T, U = Infallible> = std::result::Result<T, Error<U>>;
 
+/// Verification-only re-export of the private length codec.
+#[cfg(grenad_verif)]
+pub mod verif {
+    pub use crate::varint::{varint_decode32, varint_encode32};
+}
+
 /// Sometimes we need to use an unsafe trick to make the compiler happy.
 /// You can read more about the issue [on the Rust's Github issues].
 ///
